@@ -440,3 +440,364 @@ Proof.
         -- eapply (Hother s r); [reflexivity|exact H|intros x Hx; left; exact Hx].
     + eapply (Hother s (mk_retrier RStopped [])); [reflexivity|exact H|intros x Hx; left; exact Hx].
 Qed.
+
+(* ====================================================================== *)
+(* C13 manual_retry_gate                                                  *)
+(* ====================================================================== *)
+(* retrytower is accepted exactly when the mutex is healthy, the tower is known and either its retrier is idle
+   or it has no retrier (in WTClient::retriers) and its status is unreachable / subscription error *)
+Definition retry_allowed (s : fstate) (t : N) : bool :=
+  negb (poisoned s) &&
+  match aget (c_towers (f_c s)) t with
+  | None => false
+  | Some su => match aget (c_retriers (f_c s)) t with
+               | Some st => is_idle st
+               | None => is_retryable (su_status su)
+               end
+  end.
+
+Theorem manual_retry_gate s t :
+  (snd (f_manual_retry s t) = OOk <-> retry_allowed s t = true) /\
+  (retry_allowed s t = false -> fst (f_manual_retry s t) = s) /\
+  (retry_allowed s t = true -> exists d, fst (f_manual_retry s t) = push_chan s t d /\
+     (d = DNone \/ exists su, aget (c_towers (f_c s)) t = Some su /\ d = DStale (su_pending su))).
+Proof.
+  unfold f_manual_retry, retry_allowed. destruct (poisoned s); cbn [negb andb].
+  - repeat split; try discriminate; intros; discriminate.
+  - destruct (aget (c_towers (f_c s)) t) as [su|]; [|repeat split; try discriminate; intros; discriminate].
+    destruct (aget (c_retriers (f_c s)) t) as [st|].
+    + destruct (is_idle st); cbn; repeat split; try discriminate; try reflexivity; intros _.
+      exists DNone. split; [reflexivity|left; reflexivity].
+    + destruct (is_retryable (su_status su)); cbn; repeat split; try discriminate; try reflexivity; intros _.
+      exists (DStale (su_pending su)). split; [reflexivity|]. right. exists su. split; reflexivity.
+Qed.
+
+(* WTClient::retriers mirrors the manager: a Running retrier of the manager is Running there, an Idle one Idle;
+   an entry that is Idle there is an Idle retrier of the manager *)
+Definition SyncInv (s : fstate) : Prop :=
+  (forall t, rstat s t = Some RRunning -> aget (c_retriers (f_c s)) t = Some RRunning) /\
+  (forall t, rstat s t = Some RIdle <-> aget (c_retriers (f_c s)) t = Some RIdle) /\
+  (forall t, aget (c_retriers (f_c s)) t = Some RStopped \/ aget (c_retriers (f_c s)) t = Some RFailed -> False).
+
+(* ====================================================================== *)
+(* the three records of C05 as predicates on the raw tables               *)
+(* ====================================================================== *)
+Definition Rrow (d : db) (t l : N) : Prop :=
+  exists r, In r (tbl d T_appointment_receipts) /\ col r C_appointment_receipts_locator = l /\ col r C_appointment_receipts_tower_id = t.
+Definition Prow (d : db) (t l : N) : Prop :=
+  exists r, In r (tbl d T_pending_appointments) /\ col r C_pending_appointments_locator = l /\ col r C_pending_appointments_tower_id = t.
+Definition Irow (d : db) (t l : N) : Prop :=
+  exists r, In r (tbl d T_invalid_appointments) /\ col r C_invalid_appointments_locator = l /\ col r C_invalid_appointments_tower_id = t.
+Definition Mrow (d : db) (t : N) : Prop :=
+  exists r, In r (tbl d T_misbehaving_proofs) /\ col r C_misbehaving_proofs_tower_id = t.
+Definition Trow (d : db) (t : N) : Prop :=
+  exists r, In r (tbl d T_towers) /\ col r C_towers_tower_id = t.
+
+Lemma has_receipt_row_iff d t l : has_receipt_row d t l = true <-> Rrow d t l.
+Proof.
+  unfold has_receipt_row, Rrow. rewrite has_pk_true. cbn [ts_pk tsch CS client_schema nth T_appointment_receipts].
+  split; intros [r [A B]]; exists r; (split; [exact A|]).
+  - rewrite proj2_col in B. inversion B. split; reflexivity.
+  - rewrite proj2_col. destruct B as [<- <-]. reflexivity.
+Qed.
+Lemma has_pending_row_iff d t l : has_pending_row d t l = true <-> Prow d t l.
+Proof.
+  unfold has_pending_row, Prow. rewrite has_pk_true. cbn [ts_pk tsch CS client_schema nth T_pending_appointments].
+  split; intros [r [A B]]; exists r; (split; [exact A|]).
+  - rewrite proj2_col in B. inversion B. split; reflexivity.
+  - rewrite proj2_col. destruct B as [<- <-]. reflexivity.
+Qed.
+Lemma has_invalid_row_iff d t l : has_invalid_row d t l = true <-> Irow d t l.
+Proof.
+  unfold has_invalid_row, Irow. rewrite has_pk_true. cbn [ts_pk tsch CS client_schema nth T_invalid_appointments].
+  split; intros [r [A B]]; exists r; (split; [exact A|]).
+  - rewrite proj2_col in B. inversion B. split; reflexivity.
+  - rewrite proj2_col. destruct B as [<- <-]. reflexivity.
+Qed.
+Lemma proof_iff d t : exists_misbehaving_proof d t = true <-> Mrow d t.
+Proof.
+  unfold exists_misbehaving_proof, Mrow. rewrite has_pk_true. cbn [ts_pk tsch CS client_schema nth T_misbehaving_proofs].
+  split; intros [r [A B]]; exists r; (split; [exact A|]).
+  - rewrite proj1_col in B. inversion B. reflexivity.
+  - rewrite proj1_col. rewrite <- B. reflexivity.
+Qed.
+Lemma tower_row_iff d t : tower_row d t = true <-> Trow d t.
+Proof.
+  unfold tower_row, Trow. rewrite has_pk_true. cbn [ts_pk tsch CS client_schema nth T_towers].
+  split; intros [r [A B]]; exists r; (split; [exact A|]).
+  - rewrite proj1_col in B. inversion B. reflexivity.
+  - rewrite proj1_col. rewrite <- B. reflexivity.
+Qed.
+Lemma is_pending_row_iff d t l : is_pending_row d t l = true <-> Prow d t l.
+Proof. apply has_pending_row_iff. Qed.
+
+(* each predicate reads one table *)
+Lemma Rrow_ext d d' t l : tbl d' T_appointment_receipts = tbl d T_appointment_receipts -> (Rrow d' t l <-> Rrow d t l).
+Proof. unfold Rrow. intros ->. tauto. Qed.
+Lemma Prow_ext d d' t l : tbl d' T_pending_appointments = tbl d T_pending_appointments -> (Prow d' t l <-> Prow d t l).
+Proof. unfold Prow. intros ->. tauto. Qed.
+Lemma Irow_ext d d' t l : tbl d' T_invalid_appointments = tbl d T_invalid_appointments -> (Irow d' t l <-> Irow d t l).
+Proof. unfold Irow. intros ->. tauto. Qed.
+Lemma Mrow_ext d d' t : tbl d' T_misbehaving_proofs = tbl d T_misbehaving_proofs -> (Mrow d' t <-> Mrow d t).
+Proof. unfold Mrow. intros ->. tauto. Qed.
+Lemma Trow_ext d d' t : tbl d' T_towers = tbl d T_towers -> (Trow d' t <-> Trow d t).
+Proof. unfold Trow. intros ->. tauto. Qed.
+
+Lemma Rrow_app d d' t0 l0 sb u g t l :
+  tbl d' T_appointment_receipts = tbl d T_appointment_receipts ++ [[l0; t0; sb; u; g]] ->
+  (Rrow d' t l <-> Rrow d t l \/ (t = t0 /\ l = l0)).
+Proof.
+  unfold Rrow. intros ->. split.
+  - intros [r [A [B C]]]. apply in_app_or in A. destruct A as [A|[<-|[]]]; [left; exists r; auto|right]. cbn in *. split; congruence.
+  - intros [[r [A [B C]]]|[-> ->]]; [exists r; split; [apply in_or_app; left; exact A|auto]|].
+    exists [l0; t0; sb; u; g]. split; [apply in_or_app; right; left; reflexivity|split; reflexivity].
+Qed.
+Lemma Prow_app d d' t0 l0 t l :
+  tbl d' T_pending_appointments = tbl d T_pending_appointments ++ [[l0; t0]] ->
+  (Prow d' t l <-> Prow d t l \/ (t = t0 /\ l = l0)).
+Proof.
+  unfold Prow. intros ->. split.
+  - intros [r [A [B C]]]. apply in_app_or in A. destruct A as [A|[<-|[]]]; [left; exists r; auto|right]. cbn in *. split; congruence.
+  - intros [[r [A [B C]]]|[-> ->]]; [exists r; split; [apply in_or_app; left; exact A|auto]|].
+    exists [l0; t0]. split; [apply in_or_app; right; left; reflexivity|split; reflexivity].
+Qed.
+Lemma Irow_app d d' t0 l0 t l :
+  tbl d' T_invalid_appointments = tbl d T_invalid_appointments ++ [[l0; t0]] ->
+  (Irow d' t l <-> Irow d t l \/ (t = t0 /\ l = l0)).
+Proof.
+  unfold Irow. intros ->. split.
+  - intros [r [A [B C]]]. apply in_app_or in A. destruct A as [A|[<-|[]]]; [left; exists r; auto|right]. cbn in *. split; congruence.
+  - intros [[r [A [B C]]]|[-> ->]]; [exists r; split; [apply in_or_app; left; exact A|auto]|].
+    exists [l0; t0]. split; [apply in_or_app; right; left; reflexivity|split; reflexivity].
+Qed.
+Lemma Mrow_app d d' t0 l0 rc t :
+  tbl d' T_misbehaving_proofs = tbl d T_misbehaving_proofs ++ [[t0; l0; rc]] -> (Mrow d' t <-> Mrow d t \/ t = t0).
+Proof.
+  unfold Mrow. intros ->. split.
+  - intros [r [A B]]. apply in_app_or in A. destruct A as [A|[<-|[]]]; [left; exists r; auto|right]. cbn in *. congruence.
+  - intros [[r [A B]]| ->]; [exists r; split; [apply in_or_app; left; exact A|auto]|].
+    exists [t0; l0; rc]. split; [apply in_or_app; right; left; reflexivity|reflexivity].
+Qed.
+
+(* the exact effect of the store statements on the tables (beyond ClientProofs' *_spec) *)
+Lemma store_receipt_rows d t l slots sb u g d' :
+  dbm_store_appointment_receipt d t l slots sb u g = DbOk d' ->
+  tbl d' T_appointment_receipts = tbl d T_appointment_receipts ++ [[l; t; sb; u; g]].
+Proof.
+  unfold dbm_store_appointment_receipt. rewrite receipt_row_eq.
+  destruct (db_insert CS d T_appointment_receipts [l; t; sb; u; g]) as [d1|] eqn:E1; [|discriminate]. intros H.
+  pose proof (tbl_insert CS d _ _ d1 E1) as [T1 _]. pose proof (tbl_update CS d1 _ _ _ _ d' H) as [O2 _].
+  rewrite O2 by discriminate. exact T1.
+Qed.
+Lemma store_proof_rows d t l sb u g rc d' :
+  dbm_store_misbehaving_proof d t l sb u g rc = DbOk d' ->
+  tbl d' T_appointment_receipts = tbl d T_appointment_receipts ++ [[l; t; sb; u; g]] /\
+  tbl d' T_misbehaving_proofs = tbl d T_misbehaving_proofs ++ [[t; l; rc]].
+Proof.
+  unfold dbm_store_misbehaving_proof. rewrite receipt_row_eq, mkrow_proof.
+  destruct (db_insert CS d T_appointment_receipts [l; t; sb; u; g]) as [d1|] eqn:E1; [|discriminate]. intros H.
+  pose proof (tbl_insert CS d _ _ d1 E1) as [T1 [O1 _]]. pose proof (tbl_insert CS d1 _ _ d' H) as [T2 [O2 _]].
+  split; [rewrite O2 by discriminate; exact T1|]. rewrite T2, O1 by discriminate. reflexivity.
+Qed.
+
+Lemma Trow_map d d' f t :
+  tbl d' T_towers = map f (tbl d T_towers) -> (forall r, col (f r) C_towers_tower_id = col r C_towers_tower_id) ->
+  (Trow d' t <-> Trow d t).
+Proof.
+  unfold Trow. intros -> Hf. split.
+  - intros [r [A B]]. apply in_map_iff in A. destruct A as [r0 [<- A]]. exists r0. split; [exact A|]. rewrite <- Hf. exact B.
+  - intros [r [A B]]. exists (f r). split; [apply in_map; exact A|]. rewrite Hf. exact B.
+Qed.
+
+(* ====================================================================== *)
+(* the primitives of Client.v as seen by the flow proofs                   *)
+(* ====================================================================== *)
+Definition stat (c : client) (k : N) : option tower_status := option_map su_status (aget (c_towers c) k).
+Definition knownc (c : client) (k : N) : Prop := amem (c_towers c) k = true.
+
+Lemma stat_known c c' : (forall k, stat c' k = stat c k) -> forall k, amem (c_towers c') k = amem (c_towers c) k.
+Proof.
+  intros H k. specialize (H k). unfold stat, amem in *.
+  destruct (aget (c_towers c') k), (aget (c_towers c) k); cbn in H; congruence.
+Qed.
+
+Lemma stat_aset_same_status c t su su' k :
+  aget (c_towers c) t = Some su -> su_status su' = su_status su ->
+  option_map su_status (aget (aset (c_towers c) t su') k) = stat c k.
+Proof.
+  intros H E. unfold stat. rewrite aget_aset. destruct (N.eqb k t) eqn:Ek; [|reflexivity].
+  apply N.eqb_eq in Ek. subst. rewrite H. cbn. congruence.
+Qed.
+
+(* the shape every primitive result has: either the database is untouched (skipped, or the transaction failed
+   and the mutex is poisoned), or the write happened and the mutex is healthy *)
+Definition healthy_or_abort (c' : client) (r : cres) : Prop := c_poisoned c' = false \/ exists st, r = RAbort st.
+
+Lemma prim_add_receipt c t l slots sb u g c' r :
+  Inv c -> c_poisoned c = false -> wt_add_appointment_receipt c t l slots sb u g = (c', r) ->
+  Inv c' /\ c_retriers c' = c_retriers c /\ (forall k, stat c' k = stat c k) /\ healthy_or_abort c' r /\
+  (c_db c' = c_db c \/
+   (r = ROk /\ c_poisoned c' = false /\ knownc c t /\ ~ Rrow (c_db c) t l /\
+    tbl (c_db c') T_appointment_receipts = tbl (c_db c) T_appointment_receipts ++ [[l; t; sb; u; g]] /\
+    tbl (c_db c') T_towers = map (upd_slots t slots) (tbl (c_db c) T_towers) /\
+    (forall tb, tb <> T_towers -> tb <> T_appointment_receipts -> tbl (c_db c') tb = tbl (c_db c) tb))) /\
+  (r = ROk -> knownc c t -> Rrow (c_db c') t l).
+Proof.
+  intros HI Hp E. pose proof (Inv_add_receipt c t l slots sb u g HI Hp) as HI'. rewrite E in HI'. cbn [fst] in HI'.
+  split; [exact HI'|]. revert E. unfold wt_add_appointment_receipt.
+  destruct (aget (c_towers c) t) as [su|] eqn:Et.
+  2:{ intros E. inversion E. subst. repeat split; auto; try (left; assumption). intros _ Hk. unfold knownc, amem in Hk. rewrite Et in Hk. discriminate. }
+  destruct (dbm_load_appointment_receipt (c_db c) t l) as [rc|] eqn:El.
+  { intros E. inversion E. subst. repeat split; auto; try (left; assumption). intros _ _.
+    unfold dbm_load_appointment_receipt in El. apply find_pk_Some in El. destruct El as [A B].
+    cbn in B. exists rc. split; [exact A|]. inversion B. split; reflexivity. }
+  destruct (dbm_store_appointment_receipt (c_db c) t l slots sb u g) as [d'|e] eqn:Es; intros E; inversion E; subst; clear E.
+  - cbn [c_retriers c_db c_towers c_poisoned with_db with_towers]. split; [reflexivity|]. split.
+    { intros k. unfold stat. cbn [c_towers with_db with_towers]. eapply stat_aset_same_status; [exact Et|reflexivity]. }
+    split; [left; exact Hp|].
+    destruct (store_receipt_spec _ _ _ _ _ _ _ _ (proj1 HI) Es) as [_ [T0 Hfr]].
+    pose proof (store_receipt_rows _ _ _ _ _ _ _ _ Es) as T5.
+    split.
+    + right. repeat split; auto.
+      * unfold knownc, amem. rewrite Et. reflexivity.
+      * intros [rc [A [B C]]]. unfold dbm_load_appointment_receipt in El.
+        apply (proj1 (find_pk_None (c_db c) T_appointment_receipts [l; t]) El rc A). rewrite <- B, <- C. reflexivity.
+    + intros _ _. apply (proj2 (Rrow_app _ _ _ _ _ _ _ t l T5)). right. split; reflexivity.
+  - cbn [c_retriers c_db c_towers c_poisoned poison with_towers]. split; [reflexivity|]. split.
+    { intros k. unfold stat. cbn [c_towers poison with_towers]. eapply stat_aset_same_status; [exact Et|reflexivity]. }
+    split; [right; eexists; reflexivity|]. split; [left; reflexivity|discriminate].
+Qed.
+
+Lemma prim_add_pending c t l b dl c' r :
+  Inv c -> c_poisoned c = false -> wt_add_pending_appointment c t l b dl = (c', r) ->
+  Inv c' /\ c_retriers c' = c_retriers c /\ (forall k, stat c' k = stat c k) /\ healthy_or_abort c' r /\
+  (c_db c' = c_db c \/
+   (r = ROk /\ c_poisoned c' = false /\ knownc c t /\
+    tbl (c_db c') T_pending_appointments = tbl (c_db c) T_pending_appointments ++ [[l; t]] /\
+    (forall tb, tb <> T_pending_appointments -> tb <> T_appointments -> tbl (c_db c') tb = tbl (c_db c) tb))) /\
+  (r = ROk -> knownc c t -> Prow (c_db c') t l).
+Proof.
+  intros HI Hp E. pose proof (Inv_add_pending c t l b dl HI Hp) as HI'. rewrite E in HI'. cbn [fst] in HI'.
+  split; [exact HI'|]. revert E. unfold wt_add_pending_appointment.
+  destruct (aget (c_towers c) t) as [su|] eqn:Et.
+  2:{ intros E. inversion E. subst. repeat split; auto; try (left; assumption). intros _ Hk. unfold knownc, amem in Hk. rewrite Et in Hk. discriminate. }
+  destruct (memN l (su_pending su)) eqn:Em.
+  { intros E. inversion E. subst. repeat split; auto; try (left; assumption). intros _ _.
+    destruct HI as [HD HM]. destruct (proj1 (HM Hp) t su Et) as [tr [rr [_ [_ [_ [_ [_ [_ [C5 _]]]]]]]]].
+    apply memN_In in Em. apply C5 in Em. apply In_pending_locators in Em. destruct Em as [row [A [B C]]].
+    exists row. repeat split; assumption. }
+  destruct (dbm_store_pending_appointment (c_db c) t l b dl) as [d'|e] eqn:Es; intros E; inversion E; subst; clear E.
+  - cbn [c_retriers c_db c_towers c_poisoned with_db with_towers]. split; [reflexivity|]. split.
+    { intros k. unfold stat. cbn [c_towers with_db with_towers]. eapply stat_aset_same_status; [exact Et|reflexivity]. }
+    split; [left; exact Hp|].
+    destruct (store_pending_spec _ _ _ _ _ _ (proj1 HI) Es) as [_ [T2 Hfr]].
+    split.
+    + right. repeat split; auto. unfold knownc, amem. rewrite Et. reflexivity.
+    + intros _ _. apply (proj2 (Prow_app _ _ _ _ t l T2)). right. split; reflexivity.
+  - cbn [c_retriers c_db c_towers c_poisoned poison with_towers]. split; [reflexivity|]. split.
+    { intros k. unfold stat. cbn [c_towers poison with_towers]. eapply stat_aset_same_status; [exact Et|reflexivity]. }
+    split; [right; eexists; reflexivity|]. split; [left; reflexivity|discriminate].
+Qed.
+
+Lemma prim_add_invalid c t l b dl c' r :
+  Inv c -> c_poisoned c = false -> wt_add_invalid_appointment c t l b dl = (c', r) ->
+  Inv c' /\ c_retriers c' = c_retriers c /\ (forall k, stat c' k = stat c k) /\ healthy_or_abort c' r /\
+  (c_db c' = c_db c \/
+   (r = ROk /\ c_poisoned c' = false /\ knownc c t /\
+    tbl (c_db c') T_invalid_appointments = tbl (c_db c) T_invalid_appointments ++ [[l; t]] /\
+    (forall tb, tb <> T_invalid_appointments -> tb <> T_appointments -> tbl (c_db c') tb = tbl (c_db c) tb))) /\
+  (r = ROk -> knownc c t -> Irow (c_db c') t l).
+Proof.
+  intros HI Hp E. pose proof (Inv_add_invalid c t l b dl HI Hp) as HI'. rewrite E in HI'. cbn [fst] in HI'.
+  split; [exact HI'|]. revert E. unfold wt_add_invalid_appointment.
+  destruct (aget (c_towers c) t) as [su|] eqn:Et.
+  2:{ intros E. inversion E. subst. repeat split; auto; try (left; assumption). intros _ Hk. unfold knownc, amem in Hk. rewrite Et in Hk. discriminate. }
+  destruct (memN l (su_invalid su)) eqn:Em.
+  { intros E. inversion E. subst. repeat split; auto; try (left; assumption). intros _ _.
+    destruct HI as [HD HM]. destruct (proj1 (HM Hp) t su Et) as [tr [rr [_ [_ [_ [_ [_ [_ [_ C6]]]]]]]]].
+    apply memN_In in Em. apply C6 in Em. apply In_invalid_locators in Em. destruct Em as [row [A [B C]]].
+    exists row. repeat split; assumption. }
+  destruct (dbm_store_invalid_appointment (c_db c) t l b dl) as [d'|e] eqn:Es; intros E; inversion E; subst; clear E.
+  - cbn [c_retriers c_db c_towers c_poisoned with_db with_towers]. split; [reflexivity|]. split.
+    { intros k. unfold stat. cbn [c_towers with_db with_towers]. eapply stat_aset_same_status; [exact Et|reflexivity]. }
+    split; [left; exact Hp|].
+    destruct (store_invalid_spec _ _ _ _ _ _ (proj1 HI) Es) as [_ [T2 Hfr]].
+    split.
+    + right. repeat split; auto. unfold knownc, amem. rewrite Et. reflexivity.
+    + intros _ _. apply (proj2 (Irow_app _ _ _ _ t l T2)). right. split; reflexivity.
+  - cbn [c_retriers c_db c_towers c_poisoned poison with_towers]. split; [reflexivity|]. split.
+    { intros k. unfold stat. cbn [c_towers poison with_towers]. eapply stat_aset_same_status; [exact Et|reflexivity]. }
+    split; [right; eexists; reflexivity|]. split; [left; reflexivity|discriminate].
+Qed.
+
+(* remove_pending_appointment of a pending row: never aborts *)
+Lemma delete_pending_total d t l : exists d', dbm_delete_pending_appointment d t l = DbOk d'.
+Proof.
+  unfold dbm_delete_pending_appointment, db_delete. cbn [andb]. destruct (Nat.eqb (ref_count d l) 1); apply delete_root_total.
+Qed.
+
+Lemma prim_remove_pending c t l c' r :
+  Inv c -> c_poisoned c = false -> knownc c t -> Prow (c_db c) t l -> wt_remove_pending_appointment c t l = (c', r) ->
+  Inv c' /\ c_retriers c' = c_retriers c /\ (forall k, stat c' k = stat c k) /\ r = ROk /\ c_poisoned c' = false /\
+  (forall x, In x (tbl (c_db c') T_pending_appointments) <->
+             In x (tbl (c_db c) T_pending_appointments) /\ proj x [C_pending_appointments_locator; C_pending_appointments_tower_id] <> [l; t]) /\
+  (forall tb, tb <> T_pending_appointments -> tb <> T_appointments -> tbl (c_db c') tb = tbl (c_db c) tb).
+Proof.
+  intros HI Hp Hk Hrow E.
+  assert (Hheld : held_op c (SRemovePending t l) = true).
+  { cbn. unfold knownc, amem in Hk. destruct (aget (c_towers c) t); [|discriminate]. apply is_pending_row_iff. exact Hrow. }
+  pose proof (Inv_remove_pending c t l HI Hp Hheld) as HI'. rewrite E in HI'. cbn [fst] in HI'.
+  split; [exact HI'|]. revert E. unfold wt_remove_pending_appointment.
+  unfold knownc, amem in Hk. destruct (aget (c_towers c) t) as [su|] eqn:Et; [|discriminate].
+  destruct (delete_pending_total (c_db c) t l) as [d' Es]. rewrite Es. intros E. inversion E. subst. clear E.
+  cbn [c_retriers c_db c_towers c_poisoned with_db with_towers]. split; [reflexivity|]. split.
+  { intros k. unfold stat. cbn [c_towers with_db with_towers]. eapply stat_aset_same_status; [exact Et|reflexivity]. }
+  split; [reflexivity|]. split; [exact Hp|].
+  apply is_pending_row_iff in Hrow.
+  destruct (delete_pending_spec _ _ _ _ (proj1 HI) Hrow Es) as [_ [Hfr [HP _]]].
+  split; [exact HP|]. intros tb H1 H2. apply Hfr; assumption.
+Qed.
+
+Lemma prim_flag c t l sb u g rc c' r :
+  Inv c -> c_poisoned c = false -> wt_flag_misbehaving_tower c t l sb u g rc = (c', r) ->
+  Inv c' /\ c_retriers c' = c_retriers c /\ healthy_or_abort c' r /\
+  ((c_db c' = c_db c /\ forall k, stat c' k = stat c k) \/
+   (r = ROk /\ c_poisoned c' = false /\ knownc c t /\
+    (forall k, stat c' k = if N.eqb k t then Some Misbehaving else stat c k) /\
+    tbl (c_db c') T_appointment_receipts = tbl (c_db c) T_appointment_receipts ++ [[l; t; sb; u; g]] /\
+    tbl (c_db c') T_misbehaving_proofs = tbl (c_db c) T_misbehaving_proofs ++ [[t; l; rc]] /\
+    (forall tb, tb <> T_misbehaving_proofs -> tb <> T_appointment_receipts -> tbl (c_db c') tb = tbl (c_db c) tb))).
+Proof.
+  intros HI Hp E. pose proof (Inv_flag_misbehaving c t l sb u g rc HI Hp) as HI'. rewrite E in HI'. cbn [fst] in HI'.
+  split; [exact HI'|]. revert E. unfold wt_flag_misbehaving_tower.
+  destruct (aget (c_towers c) t) as [su|] eqn:Et.
+  2:{ intros E. inversion E. subst. split; [reflexivity|]. split; [left; exact Hp|]. left. split; reflexivity. }
+  destruct (dbm_store_misbehaving_proof (c_db c) t l sb u g rc) as [d'|e] eqn:Es; intros E; inversion E; subst; clear E.
+  - cbn [c_retriers c_db c_towers c_poisoned with_db with_towers]. split; [reflexivity|]. split; [left; exact Hp|].
+    right. destruct (store_proof_spec _ _ _ _ _ _ _ _ (proj1 HI) Es) as [_ Hfr].
+    destruct (store_proof_rows _ _ _ _ _ _ _ _ Es) as [T5 T6].
+    repeat split; auto.
+    + unfold knownc, amem. rewrite Et. reflexivity.
+    + intros k. unfold stat. cbn [c_towers with_db with_towers]. rewrite aget_aset. destruct (N.eqb k t); reflexivity.
+  - cbn [c_retriers c_db c_towers c_poisoned poison]. split; [reflexivity|]. split; [right; eexists; reflexivity|].
+    left. split; reflexivity.
+Qed.
+
+Lemma prim_set_status c t st :
+  Inv c -> Inv (wt_set_tower_status c t st) /\ c_db (wt_set_tower_status c t st) = c_db c /\
+  c_retriers (wt_set_tower_status c t st) = c_retriers c /\ c_poisoned (wt_set_tower_status c t st) = c_poisoned c /\
+  (forall k, stat (wt_set_tower_status c t st) k = if N.eqb k t then option_map (fun _ => st) (stat c t) else stat c k) /\
+  (forall k su', aget (c_towers (wt_set_tower_status c t st)) k = Some su' ->
+     exists su, aget (c_towers c) k = Some su /\ su_pending su' = su_pending su /\ su_invalid su' = su_invalid su).
+Proof.
+  intros HI. split; [apply Inv_set_status; exact HI|]. unfold wt_set_tower_status.
+  destruct (aget (c_towers c) t) as [su|] eqn:Et.
+  - split; [reflexivity|]. split; [reflexivity|]. split; [reflexivity|]. split.
+    + intros k. unfold stat. cbn [c_towers with_towers]. rewrite aget_aset. destruct (N.eqb k t) eqn:Ek; [|reflexivity]. rewrite Et. reflexivity.
+    + intros k su'. cbn [c_towers with_towers]. rewrite aget_aset. destruct (N.eqb k t) eqn:Ek.
+      * apply N.eqb_eq in Ek. subst. intros H. inversion H. exists su. repeat split; auto.
+      * intros H. exists su'. repeat split; auto.
+  - repeat split.
+    + intros k. destruct (N.eqb k t) eqn:Ek; [|reflexivity]. apply N.eqb_eq in Ek. subst. unfold stat. rewrite Et. reflexivity.
+    + intros k su' H. exists su'. repeat split; auto.
+Qed.
